@@ -114,15 +114,38 @@ func unknownNumber(t *rapid.T, md protoreflect.MessageDescriptor) int {
 	}
 }
 
+// appendPaddedVarint writes v with `extra` superfluous continuation groups (an over-long but legal varint, as
+// written by encoders that reserve a fixed-width length and back-patch it); at most 10 bytes in all.
+func appendPaddedVarint(b []byte, v uint64, extra int) []byte {
+	min := refwire.AppendVarint(nil, v)
+	if len(min)+extra > 10 {
+		extra = 10 - len(min)
+	}
+	if extra <= 0 {
+		return append(b, min...)
+	}
+	min[len(min)-1] |= 0x80
+	b = append(b, min...)
+	for i := 0; i < extra-1; i++ {
+		b = append(b, 0x80)
+	}
+	return append(b, 0x00)
+}
+
 func genUnknownField(t *rapid.T, md protoreflect.MessageDescriptor) []byte {
 	n := unknownNumber(t, md)
+	pad := 0
+	if rapid.IntRange(0, 3).Draw(t, "unkpad") == 0 {
+		pad = rapid.IntRange(1, 3).Draw(t, "unkpadn") // the VALUE / LENGTH varint is over-long (the key never: a recorded finding)
+	}
 	switch rapid.IntRange(0, 3).Draw(t, "unkwt") {
 	case 0:
-		return refwire.AppendVarint(refwire.AppendKey(nil, n, 0), wiregen.U64().Draw(t, "unkv"))
+		return appendPaddedVarint(refwire.AppendKey(nil, n, 0), wiregen.U64().Draw(t, "unkv"), pad)
 	case 1:
 		return refwire.AppendFixed64(refwire.AppendKey(nil, n, 1), wiregen.U64().Draw(t, "unk64"))
 	case 2:
-		return refwire.AppendLen(refwire.AppendKey(nil, n, 2), rapid.SliceOfN(rapid.Byte(), 0, 9).Draw(t, "unkb"))
+		payload := rapid.SliceOfN(rapid.Byte(), 0, 9).Draw(t, "unkb")
+		return append(appendPaddedVarint(refwire.AppendKey(nil, n, 2), uint64(len(payload)), pad), payload...)
 	default:
 		return refwire.AppendFixed32(refwire.AppendKey(nil, n, 5), uint32(wiregen.U64().Draw(t, "unk32")))
 	}
